@@ -4,6 +4,7 @@ import warnings
 import numpy as np
 
 from .common import fr, frs, parse_nums, all_close, close, quiet
+from .common import guarded
 from . import vario
 
 INFO = dict(
@@ -35,6 +36,7 @@ def spec_eff(req, dall):
     return min(m, dmax)
 
 
+@guarded
 def check_case(ctx, case):
     kw = case['kw']
     binf = kw['bin_func']
@@ -89,6 +91,34 @@ def check_case(ctx, case):
     if edges.max() > eff * (1 + 1e-12):
         return viol('exceeds-maxlag', 'largest edge %r > effective maximum lag %r (maxlag=%r, largest '
                     'distance %r)' % (edges.max(), eff, kw['maxlag'], float(dall.max())))
+
+    # -- the same instance binned again (the edges are computed lazily and n_lags is adopted from them): after
+    #    assigning another maxlag the edges must again be as many as n_lags reports and within the new maximum
+    if not sparse and case.get('rebin', 'skip') != 'skip':
+        new = case['rebin']
+        if new != kw['maxlag']:
+            try:
+                with quiet():
+                    V.maxlag = new
+                    e2 = np.asarray(V.bins, dtype=float)
+                    nl2 = V.n_lags
+            except ValueError as e:
+                e2 = None
+                ctx.reject('rebin-ValueError:' + str(e)[:40])
+            except (AttributeError, RuntimeError, TypeError) as e:
+                return viol('crash', 'after maxlag=%r: %s: %s' % (new, type(e).__name__, e))
+            eff2 = spec_eff(new, dall)
+            if e2 is not None and len(np.unique(dall[dall <= eff2 * (1 + 1e-12)])) >= 2:
+                ctx.count('rebinned_in_place')
+                if len(e2) != nl2:
+                    return viol('n_lags-after-rebinning', 'after maxlag=%r on the same instance n_lags reports %r for '
+                                '%d edges (%s)' % (new, nl2, len(e2), bname))
+                if not np.all(np.isfinite(e2)) or np.any(np.diff(e2) < 0) or e2.max() > eff2 * (1 + 1e-12):
+                    return viol('rebinning', 'after maxlag=%r on the same instance: edges %r, effective maximum lag %r'
+                                % (new, e2.tolist(), eff2))
+                if bname not in RULES and nl2 != kw['n_lags']:
+                    return viol('n_lags-after-rebinning', '%s binning has %d classes for n_lags=%d after maxlag=%r'
+                                % (bname, nl2, kw['n_lags'], new))
 
     # -- maxlag resolution through the model (on the implementation's own distance vector) ----
     reqtok = 'none' if req is None else (req if isinstance(req, str) else fr(req))
@@ -175,6 +205,7 @@ def cluster_centers(name, d, n):
             return None
 
 
+@guarded
 def check_direct(ctx):
     """skgstat.binning.* called directly on tie-heavy vectors"""
     from skgstat import binning
@@ -221,6 +252,7 @@ def check_direct(ctx):
 def run(ctx):
     for k in range(ctx.n(110, 1200)):
         case = vario.gen_case(ctx.rng, nmax=30 if ctx.tier == 'quick' else 50, estimators=['matheron'])
+        case['rebin'] = [None, 0.5, 0.3, 'median', 'mean', 'skip', 'skip', 'skip'][int(ctx.rng.integers(0, 8))]
         check_case(ctx, case)
     for k in range(ctx.n(40, 400)):
         check_direct(ctx)
